@@ -43,9 +43,14 @@ func scenarios(tier string) []*hn.Scenario {
 				if block >= 0 && cancel != 1 {
 					continue // a blocked node is only released after Send returned: needs the canceller
 				}
-				for variant := 0; variant < 2; variant++ {
-					if tier != "thorough" && variant != (len(ls)+cancel+block+2)%2 {
+				for variant := 0; variant < 3; variant++ {
+					if variant < 2 && tier != "thorough" && variant != (len(ls)+cancel+block+2)%2 {
 						continue // quick: one end-kind variant per skeleton (same synchronisation skeleton)
+					}
+					if variant == 2 && (len(ls) < 2 || cancel == 2 || block == 0) {
+						// variant 2: pipeline 0 ends with a node's own error that wraps context.DeadlineExceeded while
+						// the caller's context is alive: that is a warning like any other, not a cancellation of the Send
+						continue
 					}
 					sc := &hn.Scenario{SendType: "t", Cancel: cancel, Thr: -1, ThrSinks: -1, Bound: bound}
 					sc.Name = fmt.Sprintf("lens=%v cancel=%d block=%d v=%d", ls, cancel, block, variant)
@@ -61,6 +66,9 @@ func scenarios(tier string) []*hn.Scenario {
 								script = hn.Drop
 								if variant == 1 && (pi+k)%2 == 0 {
 									script = hn.Err
+								}
+								if variant == 2 && pi == 0 {
+									script = hn.ErrCtx
 								}
 							}
 							if pi == block && k == 0 {
